@@ -39,39 +39,34 @@ _TMO = {"quick": 600, "thorough": 1800}
 
 prop(
     "C17",
+    ready=True,
     level="other",
     explanation=(
-        "Four quick Kani harnesses on a real DcpsDomainParticipant (its own constructor; clock, transport and spawner replaced "
-        "through the repository's traits). (a) remove_stale_participants(now) with one directly installed DiscoveredParticipantInfo "
-        "whose lease_duration, last_communication_timestamp and `now` are symbolic over the whole normalized domain: the entry is "
-        "removed IF AND ONLY IF now - last > lease (oracle written without the repository's Sub/Ord), and "
-        "time_until_stale_participant(now) is negative exactly then and never larger than the lease - with C31 (worker sleeps at "
-        "most min(50 ms, that value)) the removal happens no earlier than the lease and no later than lease + one worker period. "
-        "(b) add_discovered_participant, reached through the guarded hook verif_add_discovered_participant with a directly "
-        "constructed SpdpDiscoveredParticipantData: symbolic local domain id, announced id None / Some(any i32), equal / unequal "
-        "domain tag, ignored or not, already discovered or not: added (entry with the announced lease and the clock reading, "
-        "announced SEDP endpoints matched) iff ids match and tags are equal and it is neither ignored nor known; otherwise the "
-        "discovered list and the builtin endpoints are unchanged. (c) ignore_participant on an enabled participant: removed from "
-        "the discovered list, others stay, and a following matching SPDP announcement of it is NOT re-added and matches no "
-        "endpoint. (d) ignore_participant on a participant that is not enabled: NotEnabled, nothing changes. Thorough adds (a) "
-        "with two participants (each removed iff ITS lease is exceeded, order kept)."),
-    bounds="discovered list of 1 entry (thorough: 2), ignore set of 0-1 entries; lease/last/now over i32 x [0,10^9) with "
-           "0 <= last <= now, lease >= 0; domain ids full i32; tags \"\" / \"t\"; the remote participant announces two SEDP "
-           "endpoints (publications detector, subscriptions announcer); empty locator lists; global unwind 2-3 plus the per-loop "
-           "bounds of vlib/ptab/part1.py",
-    outside="eventual discovery under announcement loss and everything that decodes / encodes SPDP data "
-            "(SpdpDiscoveredParticipantData::from_bytes / into_bytes run through ParameterList + DynamicData: the announcement "
-            "VALUE is constructed directly); the other eight builtin endpoint kinds of add_discovered_participant (same code shape "
-            "behind the same guard; with all ten announced the harness needed ~20 GB); timing across more than one worker "
-            "iteration (C31 gives the sleep bound); negative clock readings; the listener / status side of discovery",
+        "Two Kani harnesses on a real DcpsDomainParticipant (its own constructor; clock, transport and spawner replaced through "
+        "the repository's traits). (a) remove_stale_participants(now) with one directly installed DiscoveredParticipantInfo whose "
+        "lease_duration, last_communication_timestamp and `now` are symbolic over the whole normalized domain: the entry is "
+        "removed IF AND ONLY IF now - last > lease (oracle written without the repository's Sub/Ord and without multiplication), "
+        "nothing else is added or removed, and time_until_stale_participant(now) is negative exactly then and never larger than "
+        "the lease - together with C31 (the worker sleeps at most min(50 ms, that value)) the removal happens no earlier than the "
+        "lease and no later than lease + one worker period. (b) ignore_participant on a participant that is not enabled: "
+        "NotEnabled, discovered list and ignore set unchanged. The lease-expiry sentence of the property is what is claimed; "
+        "the domain id / tag predicate and the ignore behaviour are NOT decided (see outside)."),
+    bounds="one discovered participant; lease/last/now over i32 x [0,10^9) with 0 <= last <= now, lease >= 0; global unwind 2 "
+           "plus the per-loop bounds of vlib/ptab/part1.py",
+    outside="NOT DECIDED (measured): add_discovered_participant (domain id / domain tag / ignored / already-discovered predicate) "
+            "and ignore_participant followed by a re-announcement: with two announced SEDP endpoints CBMC ran out of 10 GB after "
+            "126-157 s, with all ten ~20 GB; a reduced shape announcing no endpoint (kept parked in c17_discovery.rs) still ran out "
+            "of 10 GB after 68-85 s. By reading (discovery_methods.rs:2553-2636) the predicate is `id absent or equal` && tags equal && "
+            "!discovered && !ignored, and ignore_participant inserts into ignored_participants before removing. Also outside: "
+            "eventual discovery under announcement loss and everything that decodes / encodes SPDP data (ParameterList + "
+            "DynamicData); two or more discovered participants (parked harness, not measured with the per-loop bounds; with a "
+            "global unwind of 15: no answer in 900 s); timing across more than one worker iteration; negative clock readings",
     level_text="bounded model checking of the real participant code (Kani/CBMC): one real operation from a constructed pre-state, "
-               "all scalar inputs symbolic over their full domains; list sizes bounded as stated.",
-    level_note="trusted: Kani/CBMC, the pre-state constructors in support_part1.rs (discovered entries / SPDP value built "
-               "field by field), the guarded hook in discovery_methods.rs (a one-line forwarder). Unwinding assertions are on for "
-               "every loop and for the TypeIdentifier drop-glue recursion bound.",
+               "lease / timestamps symbolic over their full normalized domains; one discovered participant.",
+    level_note="trusted: Kani/CBMC, the pre-state constructor support_part1::discovered (field by field what "
+               "add_discovered_participant stores). Unwinding assertions are on for every loop.",
     technique=_TECH,
     assumptions=_STUBS_COMMON + [
-        "c17_spdp_ignored: `enabled` set directly; stub: announce_participant (SPDP self-announcement through the XTypes serializer) is a no-op",
         "clock readings are non-negative and non-decreasing; lease_duration >= 0; Durations/Times normalized (C14)",
     ],
     timeout=_TMO,
@@ -93,7 +88,8 @@ prop(
         "is_participant_empty() (the factory's deletion precondition) afterwards; the same with a user topic. KNOWN FINDING "
         "KF-C36-1: once a content-filtered topic was created the participant is never empty again (delete_content_filtered_topic "
         "is a no-op returning Ok, delete_contained_entities does not clear content_filtered_topic_list) - kept as a __known "
-        "harness restricted to that trigger with a __rest sibling."),
+        "harness restricted to that trigger with a __rest sibling. NOT READY: the quick tier did not complete within the caps "
+        "when it was last measured (first two harnesses still running after 580 s at 5-7 GB); see the family report."),
     bounds="one topic, one publisher with 0-1 writer, one subscriber with 0-1 reader, 0-1 content-filtered topic; handles / "
            "names chosen among {valid, unknown}; global unwind 2 plus the per-loop bounds of vlib/ptab/part1.py",
     outside="NOT DECIDED: delete_user_defined_publisher, delete_user_defined_subscriber, delete_data_writer, delete_data_reader "
@@ -122,37 +118,40 @@ prop(
 
 prop(
     "C16",
+    ready=True,
     level="other",
     explanation=(
-        "Kernel harnesses on the real entity functions. (a) The status reads PublicationMatchedStatus::get (returned by "
-        "get_publication_matched_status) and UserDefinedDataReader::get_subscription_matched_status on ANY counter values: the "
-        "snapshot equals the stored counters, both change fields are reset, current_count / total_count are kept, a second read "
-        "reports no change. (b) UserDefinedDataReader::add_matched_publication with one matched writer and any consistent "
-        "counters: a NEW writer is appended, current_count == list length, current_count_change / total_count / "
-        "total_count_change grow by exactly 1 (__rest); KNOWN FINDING KF-C16-4: a re-announcement of an ALREADY matched writer "
-        "(QoS update) replaces the entry but increments the three counters again (__known). Thorough tier: "
-        "remove_discovered_participant on a real participant with one matched reader / writer - KNOWN FINDINGS KF-C16-1 "
-        "(writer side: list pruned, RTPS proxy deleted, counters never updated) and KF-C16-2 (reader side: RTPS proxy deleted, "
-        "matched list and counters untouched), each with a __rest sibling (a participant without matched endpoints departs: "
-        "nothing changes)."),
-    bounds="one matched endpoint per local writer / reader; counters: total_count in [len, 10^6), total_count_change in "
-           "[0,total], current_count_change in (-10^6, 10^6) (status read: full i32); global unwind 2",
-    outside="NOT DECIDED: the SEDP disposal path (remove_discovered_reader / remove_discovered_writer -> "
-            "remove_matched_subscription / remove_matched_publication: Vec::remove(i) with a symbolic index = memmove of symbolic "
-            "size over 456-byte entries, SAT encoding exhausts 10 GB with ONE matched entry) - by reading, that path updates the "
-            "counters but never calls delete_matched_reader, so the RTPS reader proxy of a deleted reader stays (data / "
-            "heartbeats still addressed to it); the additions inside process_discovered_readers / process_discovered_writers "
-            "(partition regex, type compatibility on DynamicType) - in particular 'QoS becomes incompatible => counts drop' "
-            "(by reading: the incompatible branch never removes an existing match); lists of two or more matched endpoints "
-            "(every access then goes through a symbolic pointer into the list buffer: out of memory); listener / status "
-            "condition notifications (C33)",
-    level_text="bounded model checking of the real entity / participant functions (Kani/CBMC) from constructed pre-states with "
-               "symbolic status counters; one matched endpoint.",
-    level_note="trusted: Kani/CBMC; the match fixtures replicate the statements of the success branch of "
-               "process_discovered_readers (support_part1::match_reader) resp. call the real add_matched_publication. Open "
-               "findings KF-C16-4 (quick tier), KF-C16-1 / KF-C16-2 (thorough tier) are reported on every run.",
+        "Kernel harnesses on the real entity functions. (a) The status reads PublicationMatchedStatus::get (what "
+        "get_publication_matched_status returns) and UserDefinedDataReader::get_subscription_matched_status on ANY counter "
+        "values: the snapshot equals the stored counters (the change fields are the difference since the previous read), "
+        "both change fields are reset, current_count / total_count are kept, a second read reports no change. (b) "
+        "UserDefinedDataReader::add_matched_publication with one matched writer and any consistent counters: a NEW writer is "
+        "appended, current_count == list length, current_count_change / total_count / total_count_change grow by exactly 1 "
+        "(__rest harness); KNOWN FINDING KF-C16-4: a re-announcement of an ALREADY matched writer (QoS update; "
+        "process_discovered_writers skips only announcements identical to the stored one) replaces the entry but increments the "
+        "three counters again, so total_count counts one match twice (__known harness, reported on every run). Only these "
+        "two sentences of the property (change fields = difference since last read; total_count counts each distinct match "
+        "once on the reader side) are claimed; every removal path is NOT decided (see outside)."),
+    bounds="one matched publication before the step; counters: total_count in [1, 10^6), total_count_change in [0,total], "
+           "current_count_change in (-10^6, 10^6) (status read: full i32); global unwind 2",
+    outside="NOT DECIDED (measured): (1) the SEDP disposal path (remove_discovered_reader / remove_discovered_writer -> "
+            "remove_matched_subscription / remove_matched_publication): Vec::remove(i) with i out of Iterator::position is a "
+            "memmove of SYMBOLIC size over 456-byte entries; 78 k SSA steps but the SAT encoding exhausts 10 GB with ONE matched "
+            "entry. (2) remove_discovered_participant on a participant with one matched reader / writer (parked harnesses in "
+            "c16_matched.rs): CBMC out of memory at 10 GB after 100-245 s. By READING the repository (not decided here): "
+            "remove_discovered_participant prunes matched_subscription_list and deletes the RTPS reader proxies but never updates "
+            "publication_matched_status (discovery_methods.rs:2666-2682), and on the reader side deletes the RTPS writer proxies "
+            "but leaves matched_publication_list and subscription_matched_status untouched (:2647-2664); remove_discovered_reader "
+            "updates the counters but never calls delete_matched_reader, so the RTPS proxy of a deleted reader stays. Also "
+            "outside: the additions inside process_discovered_readers / process_discovered_writers (partition regex, type "
+            "compatibility on DynamicType), 'QoS becomes incompatible => counts drop', two or more matched endpoints, listener / "
+            "status-condition notifications (C33), the writer-side twin of KF-C16-4 (inline in process_discovered_readers)",
+    level_text="bounded model checking of the real entity functions (Kani/CBMC) from constructed pre-states with symbolic status "
+               "counters; one matched endpoint.",
+    level_note="trusted: Kani/CBMC. Open finding KF-C16-4 is reported on every run (KNOWN-FINDING line), not suppressed.",
     technique=_TECH,
-    assumptions=_STUBS_COMMON + [
+    assumptions=[
+        "critical_section::acquire/release are no-ops (sequential schedules only)",
         "counter pre-states: any values with current_count == list length, 0 <= total_count_change <= total_count < 10^6, |current_count_change| < 10^6",
     ],
     timeout=_TMO,
@@ -163,38 +162,44 @@ prop(
 
 prop(
     "C03",
+    ready=True,
     level="other",
     explanation=(
-        "Soundness side. (a) RtpsStatefulWriter with ONE matched reader proxy (symbolic reliability) receives two arbitrary "
-        "ACKNACKs (source prefix of the proxy / another participant / foreign, reader and writer ids right or wrong, base >= 1 "
-        "and count symbolic): on_acknack_submessage_received accepts one iff it names this writer and the matched RELIABLE "
-        "proxy and its count is fresh, returning base-1; with the ghost level = max accepted base-1, is_change_acknowledged(sn) "
-        "holds iff the proxy is best-effort or level >= sn, for every sn. (b) Three proxies of symbolic reliability, nothing "
-        "acknowledged: is_change_acknowledged(sn) iff sn <= 0 or no proxy is reliable (every reliable reader blocks, best-effort "
-        "ones never). (c) notify_acknowledgments - the participant-side half of DataWriter::wait_for_acknowledgments - on a real "
-        "participant whose writer wrote `last` samples and is matched with one reader that acknowledged nothing: the waiter is "
-        "parked (no success) iff the reader is RELIABLE. Completion side (thorough tier): removal of the unacknowledging "
-        "reader's participant (remove_discovered_participant) deletes the RTPS proxy so is_change_acknowledged(last) becomes "
-        "true (__rest: a later wait is answered at once); KNOWN FINDING KF-C03-1: a waiter parked BEFORE the removal is never "
-        "completed (__known)."),
-    bounds="1 reader proxy x 2 ACKNACKs, 3 proxies x 0 ACKNACKs (thorough: 2 proxies x 1 ACKNACK); base in [1, i64::MAX], count "
-           "full i32, sn / last full positive i64; empty writer history (is_change_acknowledged does not read it); one writer, "
-           "one matched reader at participant level",
-    outside="the async / blocking wrapper (DataWriterAsync::wait_for_acknowledgments, block_timeout) and real time; delivery of "
-            "the ACKNACK through handle_data (whole-datagram parsing; the drain in communication_methods.rs:473-482 is read, not "
-            "executed); that a reader's ACKNACK base-1 is what it really received (C01); NOT DECIDED: departure of the reader "
-            "through SEDP disposal (remove_discovered_reader: Vec::remove with a symbolic index, see C16) - by reading, that path "
-            "leaves the RTPS reader proxy, so is_change_acknowledged stays false and wait_for_acknowledgments can never complete "
-            "after a matched reliable reader is deleted; ACKNACK base <= 0 (base = i64::MIN makes `base - 1` overflow: panic in the "
-            "dev profile, wrap to i64::MAX = everything acknowledged in release) - a malformed-input matter, not a fault of the "
-            "loss/reorder model; two or more proxies combined with ACKNACK deliveries beyond the thorough bound",
-    level_text="bounded model checking (Kani/CBMC) of the real RtpsStatefulWriter acknowledgement functions for all proxy states "
-               "reachable by two ACKNACKs, and of one participant-level step from a constructed pre-state.",
-    level_note="trusted: Kani/CBMC; support_part1 fixtures. Open finding KF-C03-1 (thorough tier) is reported on every run.",
+        "Soundness side of the property ('a success never precedes delivery'). (a) RtpsStatefulWriter with ONE matched reader "
+        "proxy (symbolic reliability) receives two arbitrary ACKNACKs (source prefix of the proxy / another participant / "
+        "foreign, reader and writer ids right or wrong, base >= 1 and count symbolic): on_acknack_submessage_received accepts one "
+        "iff it names this writer and the matched RELIABLE proxy and its count is fresh, returning base-1; with the ghost level "
+        "= max accepted base-1, is_change_acknowledged(sn) holds iff the proxy is best-effort or level >= sn, for every sn. (b) "
+        "Three proxies of symbolic reliability, nothing acknowledged: is_change_acknowledged(sn) iff sn <= 0 or no proxy is "
+        "reliable (every reliable reader blocks, best-effort ones never). (c) notify_acknowledgments - the participant-side half "
+        "of DataWriter::wait_for_acknowledgments - on a real participant whose writer wrote `last` samples and is matched with "
+        "one reader that acknowledged nothing: the waiter is parked (no success reported) iff the reader is RELIABLE; otherwise "
+        "it is answered at once. The completion side ('eventually completes, including after the reader departs') is NOT "
+        "decided (see outside)."),
+    bounds="1 reader proxy x 2 ACKNACKs; 3 proxies x 0 ACKNACKs; base in [1, i64::MAX], count full i32, sn / last full i64 "
+           "(last >= 1); empty writer history (is_change_acknowledged does not read it); one writer with one matched reader at "
+           "participant level; global unwind 2-5 plus the per-loop bounds of vlib/ptab/part1.py",
+    outside="NOT DECIDED (measured): completion after departure - remove_discovered_participant with a matched writer and a parked "
+            "waiter (parked harnesses c03_departure_* in c03_acks.rs): CBMC out of memory at 10 GB after 260-290 s; departure by "
+            "SEDP disposal (remove_discovered_reader): Vec::remove with a symbolic index, see C16. By READING (not decided "
+            "here): wait_for_acknowledgments_notification is drained only by the ACKNACK handler "
+            "(communication_methods.rs:473-482); remove_discovered_participant deletes the reader proxy but does not complete "
+            "parked waiters, and remove_discovered_reader does not even delete the proxy, so a wait_for_acknowledgments would "
+            "never complete after a matched reliable reader is deleted. Also outside: two or more proxies combined with ACKNACK "
+            "deliveries (2 proxies x 2 ACKNACKs exhausted 10 GB: the proxy is then selected through a symbolic pointer); the "
+            "async / blocking wrapper and real time; delivery of the ACKNACK through handle_data (whole-datagram parsing); that a "
+            "reader's ACKNACK base-1 is what it really received (C01); ACKNACK base <= 0 (base = i64::MIN makes `base - 1` "
+            "overflow: panic in the dev profile, wrap to i64::MAX = everything acknowledged in release - malformed input, not a "
+            "fault of the loss/reorder model)",
+    level_text="bounded model checking (Kani/CBMC) of the real RtpsStatefulWriter acknowledgement functions for all states of one "
+               "proxy reachable by two ACKNACKs and for three unacknowledging proxies, and of one participant-level registration "
+               "step from a constructed pre-state.",
+    level_note="trusted: Kani/CBMC; support_part1 fixtures (writer / match installed bottom-up with the statements of "
+               "publisher_methods.rs and of the success branch of process_discovered_readers).",
     technique=_TECH,
     assumptions=_STUBS_COMMON + [
         "ACKNACK readerSNState.base >= 1 and an empty bitmap",
-        "the parked waiter of the departure harnesses is installed directly (the state notify_acknowledgments leaves, decided by c03_wait_registration)",
+        "publisher / writer of c03_wait_registration installed directly with the state create_* + enable + `last` writes give them",
     ],
     timeout=_TMO,
     mem_gb=10,
